@@ -59,6 +59,13 @@ def gen_cases(tier, seed):
                       "codec": ["UNCOMPRESSED", "SNAPPY"][int(rng.integers(0, 2))],
                       # top-level keys the known-finding predicates and features look at
                       "kind": "MULTI", "page_version": 1})
+    # the names of the inner groups as other writers spell them (bag / array_element, map; list / item)
+    for i in range(60 if tier == "quick" else 1000):
+        cases.append({"id": "NL/%d/%d" % (seed, i), "seed": int(rng.integers(0, 2 ** 31)), "kind": ["LIST", "MAP", "LIST"][i % 3], "prim": ["i64", "utf8", "i32", "f64"][i % 4],
+                      "key_prim": ["utf8", "i32", "i64"][int(rng.integers(0, 3))], "top_optional": bool(rng.integers(0, 2)), "elem_optional": bool(rng.integers(0, 2)),
+                      "row_groups": [int(rng.integers(2, 30)) for _ in range(int(rng.integers(1, 3)))], "max_len": int([3, 8][i % 2]), "p_null_row": 0.2, "p_null_elem": 0.2, "p_empty": 0.2,
+                      "page_values": [int(x) for x in rng.integers(3, 25, 3)] if i % 2 else [10 ** 9], "page_version": 1, "use_dict": bool(rng.integers(0, 2)), "_": 0,
+                      "codec": ["UNCOMPRESSED", "SNAPPY"][i % 2], "long_rows": False, "names": ["legacy", "arrow"][(i // 3) % 2]})
     # two files opened as one dataset, the nested columns at other chunk positions in the second
     for i in range(40 if tier == "quick" else 600):
         subs = []
@@ -127,10 +134,10 @@ def make(case):
     if case.get("dict_fallback_page") is not None:
         cs["dict_fallback_page"] = case["dict_fallback_page"]
     if case["kind"] == "LIST":
-        cs["nested"] = {"kind": "LIST", "top_optional": case["top_optional"], "elem_optional": case["elem_optional"]}
+        cs["nested"] = {"kind": "LIST", "top_optional": case["top_optional"], "elem_optional": case["elem_optional"], "names": case.get("names")}
     else:
         kt = RC.TYPE_BY_NAME[case["key_prim"]]
-        cs["nested"] = {"kind": "MAP", "top_optional": case["top_optional"], "value_optional": case["elem_optional"], "key_ptype": kt[1], "key_converted": kt[2]}
+        cs["nested"] = {"kind": "MAP", "top_optional": case["top_optional"], "value_optional": case["elem_optional"], "key_ptype": kt[1], "key_converted": kt[2], "names": case.get("names")}
     spec = {"codec": case["codec"], "columns": [cs], "row_groups": list(case["row_groups"])}
     return spec, rows
 
@@ -226,7 +233,8 @@ def run_case(case):
         # the reference's own re-assembly must give the rows back
         for sub, name, rows1, cs in zip(subs, names, rows_by, cols_spec):
             if sub["kind"] == "LIST":
-                back = R.assemble_nested(info.columns[(name, "list", "element")])
+                mid_, el_ = {"legacy": ("bag", "array_element"), "arrow": ("list", "item")}.get(sub.get("names"), ("list", "element"))
+                back = R.assemble_nested(info.columns[(name, mid_, el_)])
                 want_ref = [None if r is None else [None if e is None else R.convert_value(e, cs["ptype"], R.logical_kind({"converted_type": cs["converted"]})) for e in r] for r in rows1]
                 if back != want_ref:
                     raise RuntimeError("reference reader re-assembles its own LIST file differently")
@@ -235,6 +243,8 @@ def run_case(case):
             counters["multi_nested_column_files"] = 1
         if case.get("dict_fallback_page") is not None:
             counters["nested_dictionary_fallback_files"] = 1
+        if case.get("names"):
+            counters["files_with_other_group_names"] = 1
         case = dict(subs[0], id=case["id"], row_groups=case["row_groups"], codec=case["codec"], n_nested_columns=len(subs))
         with open(path, "wb") as f:
             f.write(data)
@@ -373,4 +383,4 @@ def _feat(case):
 
 
 def required(tier):
-    return {"rows_compared": 3000, "assemble_calls_checked": 500, "multi_nested_column_files": 20, "nested_dictionary_fallback_files": 40, "two_file_datasets_with_shifted_chunk_positions": 20}
+    return {"rows_compared": 3000, "assemble_calls_checked": 500, "multi_nested_column_files": 20, "nested_dictionary_fallback_files": 40, "two_file_datasets_with_shifted_chunk_positions": 20, "files_with_other_group_names": 30}
